@@ -149,6 +149,11 @@ def main():
         ("prefix-mismatch", "{[<][<]CC[>]; [>]N []}|uniform(10, 50)|", "C[>]"),
         ("prefix-mismatch-id", "{[<1][<1]CC[>1]; [>1]N []}|uniform(10, 50)|", "C[<]"),
         ("prefix-two-open", "{[<][<]CC[>]; [>]N []}|uniform(10, 50)|", "[<]C[<]"),
+        # objects with end groups for both directions: without the guard these would generate a molecule (nothing else stops them)
+        ("prefix-mismatch-direction", "{[<][<]CC(C)[>]; [<][H], [>]N[]}|uniform(40, 60)|", "CC[>]"),
+        ("prefix-mismatch-kind", "{[$][<]CC(C)[>]; [<][H], [>]N[]}|uniform(40, 60)|", "CC[>]"),
+        ("prefix-mismatch-id-2", "{[>1][<]CC(C)[>]; [<][H], [>]N[]}|uniform(40, 60)|", "CC[>]"),
+        ("prefix-mismatch-order", "{[>][<]CC(C)[>]; [<][H], [>]N[]}|uniform(40, 60)|", "CC=[>]"),
     ]
     for name, text, prefix in misuse:
         with warnings.catch_warnings():
@@ -172,13 +177,17 @@ def main():
         ("token-after-closed-prefix-2", lambda: gbigsmiles.SmilesToken("CCO", 0, 0).generate(MolGen(gbigsmiles.SmilesToken("CC", 0, 0)), np.random.default_rng(1))),
         ("object-after-closed-prefix", lambda: gbigsmiles.Stochastic("{[$][$]CC[$]; [$]N []}|uniform(10, 50)|", 0).generate(MolGen(gbigsmiles.SmilesToken("CC", 0, 0)), np.random.default_rng(1))),
         ("suffix-after-closed-object", lambda: gbigsmiles.Molecule("CC{[$][$]CC[$]; [$]C[]}|uniform(20, 40)|CCO").generate(rng=np.random.default_rng(1))),
+        # two objects in a row whose terminals do not fit: the first leaves [>] open, the second one's left terminal asks for something else
+        ("object-after-object-direction", lambda: gbigsmiles.Molecule("{[][<]CC[>]; [<][H], [>]O[<]}|uniform(40, 60)|{[<][<]CC(C)[>]; [<][H], [>]N[]}|uniform(40, 60)|").generate(rng=np.random.default_rng(1))),
+        ("object-after-object-kind", lambda: gbigsmiles.Molecule("{[][<]CC[>]; [<][H], [>]O[<]}|uniform(40, 60)|{[$][<]CC(C)[>]; [<][H], [>]N[]}|uniform(40, 60)|").generate(rng=np.random.default_rng(2))),
+        ("object-after-object-id", lambda: gbigsmiles.Molecule("{[][<]CC[>]; [<][H], [>]O[<]}|uniform(40, 60)|{[>1][<]CC(C)[>]; [<][H], [>]N[]}|uniform(40, 60)|").generate(rng=np.random.default_rng(3))),
         ("object-after-closed-object", lambda: gbigsmiles.Molecule("CC{[$][$]CC[$]; [$]C[]}|uniform(20, 40)|{[$][$]CO[$]; [$]N[]}|uniform(20, 40)|").generate(rng=np.random.default_rng(1))),
     ]:
         with warnings.catch_warnings():
             warnings.simplefilter("ignore")
             try:
                 res = make()
-                ck.fail("misuse-not-rejected", {"misuse": name}, f"a prefix without any open descriptor was accepted; returned {getattr(res, 'smiles', res)}")
+                ck.fail("misuse-not-rejected", {"misuse": name}, f"a prefix that is closed or whose open descriptor differs from the left terminal was accepted; returned {getattr(res, 'smiles', res)}")
             except Exception as exc:
                 ck.count("misuse-rejected:" + type(exc).__name__)
         ck.case(("misuse", name), nontrivial=True)
